@@ -146,6 +146,61 @@ def jw_simplify_rule(chk, src):
            {"a": want_a[2:3], "a^dagger": want_d[2:3]}, line=gl.node.lineno, detail="Jordan-Wigner: a_j = prod_{l<j} sigma_z[l] * sigma_+[j]; a missing or extra sigma_z changes the fermionic signs of hopping terms")
 
 
+
+def state_swap_rule(chk, src):
+    """state side of an on-the-fly site swap in MatrixProduct._update_mps: the swapped two-site tensor, its fermionic sign, its symmetry labels, the decomposition results and
+    the model are exchanged together"""
+    fi = src.func("renormalizer/mps/mp.py", "MatrixProduct._update_mps")
+    tr = [c for c in ast.walk(fi.node) if isinstance(c, ast.Call) and isinstance(c.func, ast.Attribute) and c.func.attr == "transpose" and "cstruct" in unparse(c.func.value)]
+    perms = sorted(tuple(ast.literal_eval(a) for a in c.args) for c in tr)
+    chk.ob("state-swap", "two-site tensor transposed by exchanging the two sites' physical (and ancilla) axes", perms == [(0, 2, 1, 3), (0, 3, 4, 1, 2, 5)], fi.where, perms,
+           [(0, 2, 1, 3), (0, 3, 4, 1, 2, 5)], line=fi.node.lineno, detail="(left, p1, p2, right) -> (left, p2, p1, right); with ancillas (left, p1, a1, p2, a2, right) -> (left, p2, a2, p1, a1, right)")
+    sign = [st for st in ast.walk(fi.node) if isinstance(st, ast.Assign) and isinstance(st.targets[0], ast.Subscript) and isinstance(st.value, ast.UnaryOp) and isinstance(st.value.op, ast.USub)
+            and unparse(st.targets[0]) == unparse(st.value.operand)]
+    oks = len(sign) == 1 and unparse(sign[0].targets[0].slice).replace(" ", "") in (":,1,1,:", "(:,1,1,:)")
+    guard = None
+    for n in ast.walk(fi.node):
+        if isinstance(n, ast.If) and sign and any(x is sign[0] for b_ in n.body for x in ast.walk(b_)):
+            guard = unparse(n.test)
+    chk.ob("state-swap", "fermionic sign: amplitude with both sites occupied changes sign, only under the Jordan-Wigner flag", oks and guard == "self.compress_config.ofs_swap_jw", fi.where,
+           {"statement": [unparse(x)[:70] for x in sign], "guard": guard}, "if self.compress_config.ofs_swap_jw: c2[:, 1, 1, :] = -c2[:, 1, 1, :]", line=fi.node.lineno,
+           detail="exchanging two occupied fermionic sites gives -1; any other block, or the sign without the flag, corrupts the state")
+    qn2 = [unparse(c).replace(" ", "") for c in ast.walk(fi.node) if isinstance(c, ast.Call) and unparse(c.func) == "self._get_big_qn" and any(k.arg == "swap" for k in c.keywords)]
+    chk.ob("state-swap", "symmetry labels of the swapped tensor are computed for the swapped order", qn2 == ["self._get_big_qn(cidx,swap=True)"], fi.where, qn2, "self._get_big_qn(cidx, swap=True)", line=fi.node.lineno)
+    # the `swap accepted` branch replaces all nine quantities and the model together
+    br = [n for n in ast.walk(fi.node) if isinstance(n, ast.If) and unparse(n.test) == "should_retain"]
+    ok, found = False, {}
+    if len(br) == 1:
+        keep = [st for st in br[0].body if isinstance(st, ast.Assign)]
+        swp = [st for st in br[0].orelse if isinstance(st, ast.Assign)]
+
+        def names(st):
+            t = st.targets[0]
+            return [unparse(x) for x in t.elts] if isinstance(t, ast.Tuple) else [unparse(t)]
+
+        def vals(st):
+            return [unparse(x) for x in st.value.elts] if isinstance(st.value, ast.Tuple) else [unparse(st.value)]
+        m_keep = {a: b for st in keep for a, b in zip(names(st), vals(st))}
+        m_swap = {a: b for st in swp for a, b in zip(names(st), vals(st)) if len(names(st)) == len(vals(st))}
+        six = ["Uset", "SUset", "qnlnew", "Vset", "SVset", "qnrnew"]
+        ok = all(m_keep.get(x) == x + "1" for x in six) and all(m_swap.get(x) == x + "2" for x in six) and \
+            [m_swap.get(x) for x in ("qnbigl", "qnbigr", "cstruct")] == ["qnbigl2", "qnbigr2", "cstruct2"]
+        found = {"retain": m_keep, "swap": {k: v for k, v in m_swap.items() if k in six + ["qnbigl", "qnbigr", "cstruct"]}}
+        mod = [st for st in br[0].orelse if isinstance(st, (ast.Assign, ast.AnnAssign)) and unparse(st.targets[0] if isinstance(st, ast.Assign) else st.target) == "self.model"]
+        okm = len(mod) == 1 and isinstance(mod[0].value, ast.Call) and unparse(mod[0].value.func) == "Model" and unparse(mod[0].value.args[0]) == "new_basis" and \
+            [unparse(a) for a in mod[0].value.args[1:]] == ["self.model.ham_terms", "self.model.dipole", "self.model.output_ordering"]
+        nb = [unparse(st.value).replace(" ", "") for st in br[0].orelse if isinstance(st, ast.Assign) and unparse(st.targets[0]) == "new_basis"]
+        rev = [st for st in br[0].orelse if isinstance(st, ast.Assign) and isinstance(st.targets[0], ast.Subscript) and unparse(st.targets[0].value) == "new_basis"]
+        okr = nb == ["self.model.basis.copy()"] and len(rev) == 1 and unparse(rev[0].targets[0].slice).replace(" ", "") == "cidx[0]:cidx[1]+1" and \
+            unparse(rev[0].value).replace(" ", "") == "reversed(self.model.basis[cidx[0]:cidx[1]+1])"
+        chk.ob("state-swap", "accepted swap: model rebuilt from the reordered basis with an empty operator cache", okm and okr, fi.where,
+               {"model": [unparse(m.value)[:90] for m in mod], "basis": nb, "reorder": [unparse(r)[:90] for r in rev]},
+               "new_basis = basis.copy(); new_basis[cidx[0]:cidx[1]+1] = reversed(...same slice...); self.model = Model(new_basis, ham_terms, dipole, output_ordering)", line=br[0].lineno,
+               detail="after a swap the model must describe the new site order, and operators cached for the old order (Model.mpos) must not be inherited: Model.copy() keeps that cache")
+    chk.ob("state-swap", "accepted swap replaces decomposition results, labels and tensor together", ok, fi.where, found, "all of U, S_U, qn_l, V, S_V, qn_r, qnbigl, qnbigr, cstruct from the swapped set",
+           line=fi.node.lineno, detail="mixing results of the swapped and the unswapped decomposition gives a state whose tensors and labels disagree")
+
+
 def run(chk):
     src = chk.src
     chk.explanation = (
@@ -166,6 +221,8 @@ def run(chk):
     jw_sign_rule(chk, src)
     chk.rule("jw-simplify", "Jordan-Wigner strings and their single-site normal ordering, exhaustively over short words", 3)
     jw_simplify_rule(chk, src)
+    chk.rule("state-swap", "state side of an on-the-fly swap: transposition, fermionic sign, labels, decomposition results and model change together", 5)
+    state_swap_rule(chk, src)
     chk.table("update_mps_callers", {f"{k[0]}::{k[1]}": v for k, v in UPDATE_CALLERS.items()})
     # ---- ofs-pair
     seen = 0
